@@ -209,15 +209,17 @@ def gt_flat(g) -> list:
 
 
 def gt_pf28(g) -> bool:
-    """class of PF-28: a chain in which a ParallelChannelTransformation defines an input channel of a later
-    LinearTransformation (sampling a channel that does not depend on the linear inputs then raises KeyError)"""
-    defined: set = set()
+    """class of PF-28: a chain in which an earlier transformation CREATES (ParallelChannelTransformation key,
+    LinearTransformation output) an input channel of a later LinearTransformation; sampling a channel that does
+    not depend on all inputs of that transformation then raises KeyError"""
+    created: set = set()
     for p in gt_flat(g):
         if p[0] == 'parallel':
-            defined |= {c for c, _ in p[1]}
+            created |= {c for c, _ in p[1]}
         elif p[0] == 'linear':
-            if defined & set(p[1]):
+            if created & set(p[1]):
                 return True
+            created |= set(p[2])
     return False
 
 
@@ -835,12 +837,18 @@ def assess_tree(ctx, rec: dict, replies: dict, count=True) -> List[Tuple[dict, F
             else:
                 expect = parse_gtapply(replies['#ga:' + o['line']])
         fs = [] if skip else compare_option(base, o, expect)
+        reply = replies.get(o['line'])
         for f in fs:
             if f.known and f.known in known_ids:
                 note_known(ctx, f.known, f.what, count)
+                # the harness' finding classes must lie inside the complement of the Lean hypothesis `cleanW`:
+                # where the theorems apply nothing may have to be excused
+                if (f.known in ('PF-11', 'PF-04-junction') and reply is not None and reply['class'].get('clean')
+                        and not o.get('gt_linear')):
+                    ctx.drift('finding class of the harness vs hypothesis QP.C05.cleanW of the theorems',
+                              {'case': rec['case'], 'single': o['single'], 'gt': o['gt']}, f.what, 'cleanW = true')
             else:
                 bad.append((o, f))
-        reply = replies.get(o['line'])
         if reply is not None:
             _check_model_and_spec(ctx, rec, o, reply, bad, known_ids, count)
     return bad
